@@ -13,6 +13,7 @@ import (
 	"go/types"
 	"os"
 	"runtime/debug"
+	"runtime/pprof"
 	"sort"
 	"strings"
 	"sync"
@@ -264,7 +265,13 @@ func cmdRun(args []string) {
 	jobsFile := fs.String("jobs", "", "jobs JSON")
 	out := fs.String("out", "", "results JSON")
 	workers := fs.Int("workers", 16, "parallel workers")
+	cpuprof := fs.String("cpuprofile", "", "write CPU profile")
 	fs.Parse(args)
+	if *cpuprof != "" {
+		f, _ := os.Create(*cpuprof)
+		pprof.StartCPUProfile(f)
+		defer pprof.StopCPUProfile()
+	}
 	data, err := os.ReadFile(*jobsFile)
 	if err != nil {
 		fmt.Fprintln(os.Stderr, err)
@@ -275,6 +282,7 @@ func cmdRun(args []string) {
 		fmt.Fprintln(os.Stderr, err)
 		os.Exit(2)
 	}
+	debug.SetGCPercent(600)
 	t0 := time.Now()
 	l, err := load(*repo, *overlay)
 	if err != nil {
